@@ -31,6 +31,7 @@ class Monitor:
         self.ctx = ctx
         self.ambient = None
         self.last = None
+        self.imported_under = None
 
     def post(self, rate, accel, time, accum, result):
         ctx = self.ctx
@@ -51,7 +52,8 @@ class Monitor:
         if not ok:
             ctx.violation("move_dist_lt != recurrence", {
                 "fn": "move_dist_lt", "args": [rate, accel, time, accum],
-                "ambient": self.ambient, "got": result, "expected": list(want)})
+                "ambient": self.ambient, "imported_under": self.imported_under,
+                "got": result, "expected": list(want)})
         return True
 
 
@@ -127,11 +129,15 @@ def run(ctx):
         ctx.sample({"via": via, "rate": rate, "accel": accel, "T": time, "accum": accum,
                     "ambient": ambient.describe()}, tag=classes[0])
         one_case(ctx, mon, rate, accel, time, accum, ambient, via)
+        if rng.random() < 0.2:
+            related_calls(ctx, mon, rng, rate, accel, time, accum, ambient)
         if time <= 3000 and done % 4 == 0:
             self_check(ctx, rate, accel, time, accum)
         done += 1
     chained(ctx, mon, ctx.budget(300, 3000))
-    for cls in ("T=1", "T=2", "T=3", "T:4..1e3", "T:1e3..1e6", "T:1e6..2^24", "T:2^24..2^32",
+    import_time_phase(ctx, ctx.budget(1500, 12000))
+    mon = install(ctx)
+    for cls in ("module imported under low precision", "history: related arguments after a previous call", "T=1", "T=2", "T=3", "T:4..1e3", "T:1e3..1e6", "T:1e6..2^24", "T:2^24..2^32",
                 "accel=0", "accel=+-1", "accel odd neg", "accel odd pos", "accel even",
                 "r1=0,accel<0", "r1=0,accel>0", "rate at +-(2^31-1)", "rate reverses inside move",
                 "accum=clear", "accum=0", "accum=2^31-1", "accum=other", "total==kM", "total==kM-1",
@@ -141,6 +147,55 @@ def run(ctx):
     ctx.need("monitor:move_dist_lt evaluated", 50_000)
     ctx.need("oracle self-check (literal ticking)", 1000)
     contracts.uninstall_all()
+
+
+def related_calls(ctx, mon, rng, rate, accel, time, accum, ambient):
+    """History: the next calls share all but one argument with the previous one."""
+    for _ in range(rng.randint(1, 3)):
+        c = rng.randrange(5)
+        r2, a2, t2, acc2 = rate, accel, time, accum
+        if c == 0:
+            r2 = rng.choice((rate + 1, rate - 1, -rate, -rate // 2, 0))
+        elif c == 1:
+            a2 = rng.choice((accel + 1, accel - 1, -accel, 0))
+        elif c == 2:
+            t2 = rng.choice((1, 2, max(1, time - 1), time + 1, max(1, time // 2)))
+        elif c == 3:
+            acc2 = rng.choice(("clear", 0, M - 1, rng.randrange(M)))
+        else:
+            r2, a2 = [(-2 if v == -1 else -1 if v == -2 else v) for v in (rate, accel)]
+            if (r2, a2) == (rate, accel):
+                a2 = rng.choice((-1, -2))
+        if abs(r2) > S.RMAX or abs(a2) > S.RMAX or not S.lt_in_domain(r2, a2, t2):
+            continue
+        ctx.case(["history: related arguments after a previous call"], ("rel", r2, a2, t2, acc2, rate, accel, time))
+        one_case(ctx, mon, r2, a2, t2, acc2, ambient, "move_dist_lt")
+        rate, accel, time, accum = r2, a2, t2, acc2
+
+
+def import_time_phase(ctx, n_per_setting):
+    """The module is re-imported while the caller's precision is low; then ordinary calls."""
+    rng = ctx.rng
+    for setting in G.IMPORT_SETTINGS:
+        contracts.uninstall_all()
+        G.reload_ebb_calc(setting)
+        mon = install(ctx)
+        mon.imported_under = list(setting)
+        done = 0
+        while done < n_per_setting and ctx.alive():
+            classes, rate, accel, time, accum = G.gen_lt_case(rng)
+            if abs(rate) > S.RMAX or abs(accel) > S.RMAX:
+                continue
+            if rng.random() < 0.5:
+                accum = "clear"
+            ambient = G.pick_ambient(rng) if rng.random() < 0.5 else G.Ambient("dps", 15)
+            via = rng.choice(("move_dist_lt", "move_dist_lt", "moveDistLMA"))
+            ctx.case(["module imported under low precision", "imported under %s=%d" % setting],
+                     (rate, accel, time, accum, "import", setting, ambient.kind, ambient.value))
+            one_case(ctx, mon, rate, accel, time, accum, ambient, via)
+            done += 1
+    contracts.uninstall_all()
+    G.reload_ebb_calc(None)
 
 
 def chained(ctx, mon, n_chains):
@@ -176,8 +231,11 @@ def chained(ctx, mon, n_chains):
 
 
 def replay(ctx, rec):
-    mon = install(ctx)
     w = rec["witness"]
+    if w.get("imported_under"):
+        G.reload_ebb_calc(tuple(w["imported_under"]))
+    mon = install(ctx)
+    mon.imported_under = w.get("imported_under")
     args = w.get("args") or w.get("last")
     rate, accel, time, accum = args
     amb = w.get("ambient") or ["dps", 15]
